@@ -13,8 +13,9 @@ import (
 
 // ent is a pool entry as the specification sees it: hash name and the height of the stateful verification.
 type ent struct {
-	T string `json:"t"`
-	H int    `json:"h"`
+	T  string `json:"t"`
+	H  int    `json:"h"`  // height of the stateful verification, -1 if the entry carries none
+	Sl bool   `json:"sl"` // the entry carries a stateless verification result
 }
 
 // universe: real transactions t1..tn
@@ -59,9 +60,18 @@ func entry(tx *types.Transaction, h int, slFirst bool, slH uint32) *tc.TXEntry {
 	return &tc.TXEntry{Tx: tx, Attrs: []*tc.TXAttr{sf, sl}}
 }
 
+func hasStateless(attrs []*tc.TXAttr) bool {
+	for _, a := range attrs {
+		if a.Type == vt.Stateless && a.ErrCode == errors.ErrNoError {
+			return true
+		}
+	}
+	return false
+}
+
 func statefulHeight(attrs []*tc.TXAttr) int {
 	for _, a := range attrs {
-		if a.Type == vt.Stateful {
+		if a.Type == vt.Stateful && a.ErrCode == errors.ErrNoError {
 			return int(a.Height)
 		}
 	}
